@@ -391,6 +391,19 @@ class Program:
         return out
 
 
+def init_params(prog: "Program", qual: str) -> list[tuple[str, bool]]:
+    """Positional parameters of the dataclass-generated __init__ of ``qual``: (name, is_real_field) — fields declared with
+    field(init=False) are left out, InitVar pseudo-fields are parameters but not fields."""
+    out = []
+    for name, st in prog.dataclass_fields(qual).items():
+        v = st.value
+        if isinstance(v, ast.Call) and call_name(v).split(".")[-1] == "field" and any(
+                k.arg == "init" and isinstance(k.value, ast.Constant) and k.value.value is False for k in v.keywords):
+            continue
+        out.append((name, "InitVar" not in unparse(st.annotation)))
+    return out
+
+
 def calls_in(node: ast.AST) -> list[ast.Call]:
     return [n for n in ast.walk(node) if isinstance(n, ast.Call)]
 
